@@ -239,3 +239,14 @@ mod tests {
         );
     }
 }
+
+/// Verification hooks: plain forwards to private items, no logic.
+#[cfg(feature = "verif-hooks")]
+pub mod verif_hooks {
+    use super::MacroBlockEntry;
+
+    /// (first, number, picture id) of a decoded entry.
+    pub fn fields(entry: &MacroBlockEntry) -> (u16, u16, u8) {
+        (entry.start, entry.count, entry.picture_id)
+    }
+}
